@@ -1,3 +1,110 @@
-(** C18 — property theorems only. *)
-From Coq Require Import List ZArith NArith.
-From C33 Require Import C18.Model C18.Spec.
+(** C18 — property theorems only.
+
+    All theorems except [C18_binding] hold for an arbitrary hash type [T], nil
+    value, two-hash function and equality test (in particular for the real
+    double SHA-256); [C18_binding] is stated in the symbolic hash algebra [h]. *)
+From Coq Require Import List ZArith NArith Bool.
+From C33 Require Import C18.Model C18.Spec C18.Proofs.
+Import ListNotations.
+
+Theorem C18_parallel_eq_sequential :
+  forall (T : Type) (nilT : T) (hash2 : T -> T -> T) (ncpu : Z) (ls : list T),
+    get_merkle_root_par T nilT hash2 ncpu ls = get_merkle_root T nilT hash2 ls.
+Proof. exact parallel_eq_sequential_thm. Qed.
+Print Assumptions C18_parallel_eq_sequential.
+
+Theorem C18_root_is_tree_root :
+  forall (T : Type) (nilT : T) (hash2 : T -> T -> T) (ls : list T),
+    get_merkle_root T nilT hash2 ls = spec_root T nilT hash2 ls.
+Proof. exact root_is_tree_root_thm. Qed.
+Print Assumptions C18_root_is_tree_root.
+
+Theorem C18_computation_root :
+  forall (T : Type) (nilT : T) (hash2 : T -> T -> T) (eqT : T -> T -> bool)
+         (ls : list T) (flage : Z) (pos : N),
+    ls <> [] -> (1 <= flage <= 3)%Z ->
+    fst (fst (computation T nilT hash2 eqT ls flage pos)) = get_merkle_root T nilT hash2 ls.
+Proof. exact computation_root_thm. Qed.
+Print Assumptions C18_computation_root.
+
+Theorem C18_branch_is_tree_branch :
+  forall (T : Type) (nilT : T) (hash2 : T -> T -> T) (eqT : T -> T -> bool)
+         (ls : list T) (i : nat),
+    (i < length ls)%nat ->
+    get_merkle_branch T nilT hash2 eqT ls (N.of_nat i) = spec_branch T nilT hash2 ls i /\
+    get_merkle_root_and_branch T nilT hash2 eqT ls (N.of_nat i) =
+      (get_merkle_root T nilT hash2 ls, spec_branch T nilT hash2 ls i).
+Proof. exact branch_is_tree_branch_thm. Qed.
+Print Assumptions C18_branch_is_tree_branch.
+
+Theorem C18_branch_verifies :
+  forall (T : Type) (nilT : T) (hash2 : T -> T -> T) (eqT : T -> T -> bool)
+         (ls : list T) (i : nat) (x : T),
+    nth_error ls i = Some x ->
+    root_from_branch T hash2 (get_merkle_branch T nilT hash2 eqT ls (N.of_nat i)) x (N.of_nat i)
+      = get_merkle_root T nilT hash2 ls /\
+    (let '(r, b) := get_merkle_root_and_branch T nilT hash2 eqT ls (N.of_nat i) in
+     root_from_branch T hash2 b x (N.of_nat i) = r /\ r = get_merkle_root_par T nilT hash2 16 ls).
+Proof. exact branch_verifies_thm. Qed.
+Print Assumptions C18_branch_verifies.
+
+Theorem C18_dup_tail_same_root :
+  forall (T : Type) (nilT : T) (hash2 : T -> T -> T) (l1 l2 : list T),
+    dup_tail_related T l1 l2 ->
+    get_merkle_root T nilT hash2 l1 = get_merkle_root T nilT hash2 l2.
+Proof. exact related_same_root_thm. Qed.
+Print Assumptions C18_dup_tail_same_root.
+
+Theorem C18_binding :
+  forall l1 l2 : list h, all_leaves l1 -> all_leaves l2 -> l1 <> [] -> l2 <> [] ->
+    get_merkle_root h HNil sym_hash2 l1 = get_merkle_root h HNil sym_hash2 l2 ->
+    l1 = l2 \/ (l1 <> l2 /\ dup_tail_related h l1 l2).
+Proof. exact binding_thm. Qed.
+Print Assumptions C18_binding.
+
+Theorem C18_child_roots_verify :
+  forall (T : Type) (nilT : T) (hash2 : T -> T -> T) (eqT : T -> T -> bool)
+         (ncpu : Z) (txs : list (mtx T)) (root : T) (chains : list (childchain T)),
+    multi_layer_info T nilT hash2 ncpu txs = Some (root, chains) ->
+    (* the child chains partition the list in order, each child hash is the root of its slice *)
+    chains_cover T nilT hash2 txs 0 chains /\
+    (* every transaction: its branch inside its chain verifies to the chain's hash, and the
+       chain's branch among the chain hashes verifies to the block root (for a single chain
+       the chain hash is the block root) *)
+    forall (ci : nat) (c : childchain T) (j : nat) (x : T),
+      nth_error chains ci = Some c ->
+      nth_error (map snd (firstn (cc_count c) (skipn (cc_start c) txs))) j = Some x ->
+      root_from_branch T hash2
+        (get_merkle_branch T nilT hash2 eqT
+           (map snd (firstn (cc_count c) (skipn (cc_start c) txs))) (N.of_nat j)) x (N.of_nat j)
+        = cc_hash c /\
+      (match chains with
+       | [_] => cc_hash c = root
+       | _ => root_from_branch T hash2
+                (get_merkle_branch T nilT hash2 eqT (map cc_hash chains) (N.of_nat ci))
+                (cc_hash c) (N.of_nat ci) = root
+       end).
+Proof. exact child_roots_verify_thm. Qed.
+Print Assumptions C18_child_roots_verify.
+
+(** non-vacuity: concrete instances in the symbolic algebra *)
+Example C18_example_duptail :
+  let l1 := map Leaf [1; 2; 3; 4; 5; 6]%N in
+  let l2 := map Leaf [1; 2; 3; 4; 5; 6; 5; 6]%N in
+  all_leaves l1 /\ all_leaves l2 /\ l1 <> l2 /\
+  get_merkle_root h HNil sym_hash2 l1 = get_merkle_root h HNil sym_hash2 l2 /\
+  dup_step h l1 l2 /\
+  comp_mutated h HNil sym_hash2 h_eqb l1 = false /\
+  comp_mutated h HNil sym_hash2 h_eqb l2 = true.
+Proof. exact example_duptail. Qed.
+Print Assumptions C18_example_duptail.
+
+Example C18_example_parallel_and_branch :
+  let ls := map Leaf (map N.of_nat (seq 1 300)) in
+  get_merkle_root_par h HNil sym_hash2 4 ls = get_merkle_root h HNil sym_hash2 ls /\
+  get_merkle_root_par h HNil sym_hash2 4 ls <> HNil /\
+  length (get_merkle_branch h HNil sym_hash2 h_eqb ls 298) = 9%nat /\
+  root_from_branch h sym_hash2 (get_merkle_branch h HNil sym_hash2 h_eqb ls 298) (Leaf 299) 298
+    = get_merkle_root h HNil sym_hash2 ls.
+Proof. exact example_parallel_and_branch. Qed.
+Print Assumptions C18_example_parallel_and_branch.
